@@ -17,10 +17,12 @@ Init == ph = "build" /\ buf = <<>> /\ ntok = 0 /\ cut = 0
 Next == \/ ph = "build" /\ ntok < MaxTok /\ (\E g \in Groups : buf' = buf \o g) /\ ntok' = ntok + 1 /\ UNCHANGED <<ph, cut>>
         \/ ph = "build" /\ buf # <<>> /\ ph' = "cut" /\ cut' \in 0..Len(buf) /\ UNCHANGED <<buf, ntok>>
 B == SubSeq(buf, 1, cut)
+ProbeSample == {"u8", "int", "str", "bytes_iter", "array", "map_iter", "tag", "datatype", "f32"}
 Emit == (ph' = "cut") =>
    LET b == SubSeq(buf, 1, cut') IN
    \A name \in AccNames :
-      PrintT(<<"CASE", ToJson([fam |-> "acc", name |-> name, in |-> [buf |-> b, pos |-> 0], exp |-> AccExpect(name, TRUE, b, 0)])>>)
+      /\ PrintT(<<"CASE", ToJson([fam |-> "acc", name |-> name, in |-> [buf |-> b, pos |-> 0], exp |-> AccExpect(name, TRUE, b, 0)])>>)
+      /\ (name \in ProbeSample => PrintT(<<"CASE", ToJson([fam |-> "probe", name |-> name, in |-> [buf |-> b, pos |-> 0], exp |-> ProbeExpect(name, TRUE, b, 0)])>>))
 \* ---- invariants ----
 WF == ph = "cut" /\ ItemEnd(B, 0) >= 0
 TreeAgreement == WF => \A name \in WholeAcc : AgreesWithTree(name, B)
